@@ -72,6 +72,7 @@ func c20Schema(t *rapid.T) kit.Schema {
 	p := kit.ProfileCodec
 	p.FancyNames = rapid.IntRange(0, 2).Draw(t, "fancy") > 0
 	p.AnyEnums = true
+	p.MapEnums = true
 	p.Constraints = rapid.Bool().Draw(t, "constraints")
 	s := kit.GenSchema(t, p)
 	// often: several string enums in one table (their declarations are generated from a map
